@@ -36,6 +36,37 @@ _QM = {"done": (110, ["$recv"]), "set_result": (111, ["$recv", "@0"]), "set_exce
        "cancelled": (113, ["$recv"]), "exception": (114, ["$recv"]), "result": (115, ["$recv"])}   # methods of asyncio.Future
 
 # group -> {"import": bridge module, "open": namespaces, "defs": {lean name: Target}, "obligations": [(name, needs, statement, script)]}
+_CACHE_SCRIPT = r'''intro limit expiration s k ok args{HOK}
+  unfold {DEF}
+  cases hf : Cache.find s.table k with
+  | none =>
+    have hset := assocSet_imgL_absent {KD} s.table k
+    by_cases hl : limit < s.table.length + 1
+    · have hl' : ((limit : Int) < (s.table.length : Int) + 1) := by omega
+      cases ok <;> cache_eval
+    · have hl' : ¬ ((limit : Int) < (s.table.length : Int) + 1) := by omega
+      cases ok <;> cache_eval
+  | some e =>
+    have hek : e.key = k := by
+      have := List.find?_some hf; simpa using this
+    {HEOK}
+    have hfe := find_erase s.table k
+    have hset := assocSet_imgL_absent {KD} (Cache.erase s.table k) k
+    rcases hx : e.expire with _ | x
+    · cases heo : e.ok <;> cache_eval
+    · by_cases hx0 : x = 0
+      · subst hx0; cases heo : e.ok <;> cache_eval
+      · have hx0' : ¬ ((x : Int) = 0) := by omega
+        by_cases hlt : x < s.now
+        · have hlt' : ((x : Int) < (s.now : Int)) := by omega
+          by_cases hl : limit < (Cache.erase s.table k).length + 1
+          · have hl' : ((limit : Int) < ((Cache.erase s.table k).length : Int) + 1) := by omega
+            cases ok <;> cache_eval
+          · have hl' : ¬ ((limit : Int) < ((Cache.erase s.table k).length : Int) + 1) := by omega
+            cases ok <;> cache_eval
+        · have hlt' : ¬ ((x : Int) < (s.now : Int)) := by omega
+          cases heo : e.ok <;> cache_eval'''
+
 GROUPS = {
     "contexts": {
         "import": "Haiway.Bridge.Contexts", "open": "Haiway.MiniPy Haiway.Bridge.Contexts",
@@ -208,6 +239,45 @@ GROUPS = {
                 (f"retry_{tag}_refines", [base + "Body", base], f"RetryRefines {base}",
                  "exact refines_of_step (iAtt := {%sBody.$counter}) (by decide) (fun _ => rfl) retry_%s_step" % (base, tag)),
             )],
+        ],
+    },
+    "cache": {
+        "import": "Haiway.Bridge.Cache", "open": "Haiway Haiway.MiniPy Haiway.Bridge.Cache",
+        "defs": {
+            "gSyncCall": Target("src/haiway/helpers/caching.py", "_SyncCache", "__call__", ["args", "kwargs"], {"_cached": 1, "_limit": 2},
+                                {("self", "_function"): (180, ["$args", "$kwargs"]), ("self", "_next_expire_time"): (181, [])},
+                                ext_functions={"_make_key": (182, []), "monotonic": (183, []),
+                                               "_CacheEntry": (23, ["@value|0", "@expire|1"])},
+                                containers={"self._cached"}),
+            "gSyncMethod": Target("src/haiway/helpers/caching.py", "_SyncCache", "__method_call__", ["__method_self", "args", "kwargs"],
+                                  {"_cached": 1, "_limit": 2},
+                                  {("self", "_function"): (180, ["$args", "$kwargs"]), ("self", "_next_expire_time"): (181, [])},
+                                  ext_functions={"_make_key": (182, []), "monotonic": (183, []),
+                                                 "_CacheEntry": (23, ["@value|0", "@expire|1"])},
+                                  containers={"self._cached"}),
+            "gAsyncCall": Target("src/haiway/helpers/caching.py", "_AsyncCache", "__call__", ["args", "kwargs"], {"_cached": 1, "_limit": 2},
+                                 {("self", "_function"): (190, ["$args", "$kwargs"]), ("self", "_next_expire_time"): (181, [])},
+                                 ext_functions={"_make_key": (182, []), "monotonic": (183, []), "get_running_loop": (187, []),
+                                                "shield": (185, ["@0"]), "_CacheEntry": (23, ["@value|0", "@expire|1"])},
+                                 method_externals={"create_task": (184, ["$recv", "@0"])},
+                                 containers={"self._cached"}),
+            "gAsyncMethod": Target("src/haiway/helpers/caching.py", "_AsyncCache", "__method_call__", ["__method_self", "args", "kwargs"],
+                                   {"_cached": 1, "_limit": 2},
+                                   {("self", "_function"): (190, ["$args", "$kwargs"]), ("self", "_next_expire_time"): (181, [])},
+                                   ext_functions={"_make_key": (182, []), "monotonic": (183, []), "get_running_loop": (187, []),
+                                                  "shield": (185, ["@0"]), "_CacheEntry": (23, ["@value|0", "@expire|1"])},
+                                   method_externals={"create_task": (184, ["$recv", "@0"])},
+                                   containers={"self._cached"}),
+        },
+        "obligations": [
+            ("sync_call_refines", ["gSyncCall"], "CallRefines gSyncCall", _CACHE_SCRIPT.replace("{DEF}", "gSyncCall").replace("{KD}", ".sync")
+             .replace("{HOK}", " hok").replace("{HEOK}", "have heok : e.ok = true := hok e (List.mem_of_find?_eq_some hf)")),
+            ("sync_method_refines", ["gSyncMethod"], "CallRefines gSyncMethod", _CACHE_SCRIPT.replace("{DEF}", "gSyncMethod").replace("{KD}", ".sync")
+             .replace("{HOK}", " hok").replace("{HEOK}", "have heok : e.ok = true := hok e (List.mem_of_find?_eq_some hf)")),
+            ("async_call_refines", ["gAsyncCall"], "AsyncCallRefines gAsyncCall", _CACHE_SCRIPT.replace("{DEF}", "gAsyncCall").replace("{KD}", ".async")
+             .replace("{HOK}", "").replace("{HEOK}", "skip")),
+            ("async_method_refines", ["gAsyncMethod"], "AsyncCallRefines gAsyncMethod", _CACHE_SCRIPT.replace("{DEF}", "gAsyncMethod").replace("{KD}", ".async")
+             .replace("{HOK}", "").replace("{HEOK}", "skip")),
         ],
     },
     "queue": {
